@@ -66,6 +66,17 @@ func main() {
 				return r.Run(&u)
 			}
 		})
+	case "shapes":
+		simple(os.Args[2:], func(w *env.World, out *bufio.Writer) func([]byte) error {
+			r := &drive.ShapeRunner{W: w, Out: out}
+			return func(line []byte) error {
+				var b drive.ShapeBatch
+				if err := json.Unmarshal(line, &b); err != nil {
+					return err
+				}
+				return r.Run(&b)
+			}
+		})
 	case "netconf":
 		simple(os.Args[2:], func(w *env.World, out *bufio.Writer) func([]byte) error {
 			r := &drive.NCRunner{W: w, Out: out}
